@@ -68,8 +68,9 @@ theorem mdata_acct {a : Nat} {c c1 : Ctx} {E : List Eff} {C : List (SlabID × El
     (hacct : MAcct a c.ctr c1.ctr (grp s.elems.elems) (grp s'.elems.elems) E (C.map (·.1))) :
     MLog a c (c1.emit (.store s.hdr.id)) (E ++ [.store s.hdr.id]) C ∧
       MAcct a c.ctr (c1.emit (.store s.hdr.id)).ctr (MTree.slabs 0 s) (MTree.slabs 0 s')
-        (E ++ [.store s.hdr.id]) (C.map (·.1)) := by
-  refine ⟨by simpa using hlog.trans (MLog.store a c1 s.hdr.id), ?_⟩
+        (E ++ [.store s.hdr.id]) (C.map (·.1)) ∧
+      lastAction (E ++ [.store s.hdr.id]) s.hdr.id = some true := by
+  refine ⟨by simpa using hlog.trans (MLog.store a c1 s.hdr.id), ?_, lastAction_store_last E s.hdr.id⟩
   rw [mslabs_zero, mslabs_zero, hid, groupSlabs_eq s, groupSlabs_eq s']
   rw [mslabs_zero, groupSlabs_eq s] at hnd hold
   have h1 := hacct.map (fun g => MSlabView.group g)
@@ -105,7 +106,8 @@ theorem mdata_set_acct {cfg : MCfg} (s s' : MDataSlab r) {k : MKey} {v : Elem} {
     (hold : ∀ id ∈ AList.keys (MTree.slabs 0 s), Old cfg.addr c.ctr id)
     (h : s.set cfg k v c = .ok (ks, old, s', c')) :
     s'.hdr.id = s.hdr.id ∧ ∃ E C, MLog cfg.addr c c' E C ∧
-      MAcct cfg.addr c.ctr c'.ctr (MTree.slabs 0 s) (MTree.slabs 0 s') E (C.map (·.1)) := by
+      MAcct cfg.addr c.ctr c'.ctr (MTree.slabs 0 s) (MTree.slabs 0 s') E (C.map (·.1)) ∧
+      lastAction E s.hdr.id = some true := by
   unfold MDataSlab.set at h
   obtain ⟨⟨ks', old', elems, c1⟩, hset, h⟩ := mbind_eq_ok h
   simp only [pure, Except.pure, Except.ok.injEq, Prod.mk.injEq] at h
@@ -124,7 +126,8 @@ theorem mdata_remove_acct {cfg : MCfg} (s s' : MDataSlab r) {k : MKey} {c c' : C
     (hold : ∀ id ∈ AList.keys (MTree.slabs 0 s), Old cfg.addr c.ctr id)
     (h : s.remove cfg k c = .ok (rk, rv, s', c')) :
     s'.hdr.id = s.hdr.id ∧ ∃ E C, MLog cfg.addr c c' E C ∧
-      MAcct cfg.addr c.ctr c'.ctr (MTree.slabs 0 s) (MTree.slabs 0 s') E (C.map (·.1)) := by
+      MAcct cfg.addr c.ctr c'.ctr (MTree.slabs 0 s) (MTree.slabs 0 s') E (C.map (·.1)) ∧
+      lastAction E s.hdr.id = some true := by
   unfold MDataSlab.remove at h
   obtain ⟨⟨rk', rv', elems, c1⟩, hrem, h⟩ := mbind_eq_ok h
   simp only [pure, Except.pure, Except.ok.injEq, Prod.mk.injEq] at h
@@ -170,9 +173,10 @@ theorem mparent_acct {a : Nat} {m m2 : MMetaSlab (MTree r d)} {A B : List (MTree
       (∀ id ∈ AList.keys ((m.hdr.id, ment (d + 1) m) :: (A ++ child' :: B).flatMap (MTree.slabs d)), Old a c1.ctr id) →
       ∃ E2, MLog a c1 c2 E2 [] ∧
         MAcct a c1.ctr c2.ctr ((m.hdr.id, ment (d + 1) m) :: (A ++ child' :: B).flatMap (MTree.slabs d))
-          (MTree.slabs (d + 1) m2) E2 []) :
+          (MTree.slabs (d + 1) m2) E2 [] ∧ lastAction E2 m.hdr.id = some true) :
     ∃ E C, MLog a c c2 E C ∧
-      MAcct a c.ctr c2.ctr (MTree.slabs (d + 1) m) (MTree.slabs (d + 1) m2) E (C.map (·.1)) := by
+      MAcct a c.ctr c2.ctr (MTree.slabs (d + 1) m) (MTree.slabs (d + 1) m2) E (C.map (·.1)) ∧
+      lastAction E m.hdr.id = some true := by
   have e0 : MTree.slabs (d + 1) m
       = ((m.hdr.id, ment (d + 1) m) :: A.flatMap (MTree.slabs d)) ++ MTree.slabs d child ++ B.flatMap (MTree.slabs d) := by
     rw [mslabs_succ, hch]; simp [List.flatMap_append, ment_succ]
@@ -185,8 +189,8 @@ theorem mparent_acct {a : Nat} {m m2 : MMetaSlab (MTree r d)} {A B : List (MTree
       = (m.hdr.id, ment (d + 1) m) :: (A ++ child' :: B).flatMap (MTree.slabs d) := by
     simp [List.flatMap_append]
   rw [e1] at hframe hnd1 hold1
-  obtain ⟨E2, hlog2, hacct2⟩ := htail hnd1 hold1
-  refine ⟨E1 ++ E2, C1, by simpa using hlog1.trans hlog2, ?_⟩
+  obtain ⟨E2, hlog2, hacct2, hla⟩ := htail hnd1 hold1
+  refine ⟨E1 ++ E2, C1, by simpa using hlog1.trans hlog2, ?_, lastAction_append_some hla⟩
   simpa using hframe.trans hacct2 hold
 
 /-! ### reading the path off a successful run -/
@@ -261,7 +265,8 @@ theorem mnode_acct {a : Nat} {m t' : MMetaSlab (MTree r d)} {i : Nat} {child chi
     (hacct1 : MAcct a c.ctr c1.ctr (MTree.slabs d child) (MTree.slabs d child') E1 (C1.map (·.1)))
     (ha : m.afterChild T child' i c1 = .ok (t', c')) :
     ∃ E C, MLog a c c' E C ∧
-      MAcct a c.ctr c'.ctr (MTree.slabs (d + 1) m) (MTree.slabs (d + 1) t') E (C.map (·.1)) := by
+      MAcct a c.ctr c'.ctr (MTree.slabs (d + 1) m) (MTree.slabs (d + 1) t') E (C.map (·.1)) ∧
+      lastAction E m.hdr.id = some true := by
   obtain ⟨A, B, hch, hk⟩ := split_at_getElem? hchild
   have hch1 : (m.withChild child' i).children = A ++ child' :: B := by
     rw [withChild_children, hch, set_mid hk]
@@ -283,7 +288,7 @@ theorem mnode_acct {a : Nat} {m t' : MMetaSlab (MTree r d)} {i : Nat} {child chi
   · have := mtail_plain_acct (m1 := m.withChild child' i) (m2 := m.withChild child' i)
       (e := ment (d + 1) m) rfl rfl hnd1' hold1'
     rw [hch1, withChild_hdr_id] at this
-    exact ⟨_, MLog.store a c1 m.hdr.id, this⟩
+    exact ⟨_, MLog.store a c1 m.hdr.id, this, lastAction_store_self m.hdr.id⟩
 
 /-! ### set and remove on a subtree -/
 
@@ -318,7 +323,8 @@ theorem mset_acct_zero {cfg : MCfg} (s t' : MDataSlab r) (top : Bool) {k : MKey}
     (hold : ∀ id ∈ AList.keys (MTree.slabs 0 s), Old cfg.addr c.ctr id)
     (h : MTree.set cfg 0 s k v c = .ok (ks, old, t', c')) :
     (MTree.hdr 0 t').id = (MTree.hdr 0 s).id ∧ ∃ E C, MLog cfg.addr c c' E C ∧
-      MAcct cfg.addr c.ctr c'.ctr (MTree.slabs 0 s) (MTree.slabs 0 t') E (C.map (·.1)) :=
+      MAcct cfg.addr c.ctr c'.ctr (MTree.slabs 0 s) (MTree.slabs 0 t') E (C.map (·.1)) ∧
+      lastAction E (MTree.hdr 0 s).id = some true :=
   mdata_set_acct s t' hinl (firstOk_of_inv ((mtreeInv_zero_iff T D top s).mp hinv).elems_inv) hnd hold h
 
 theorem mset_acct_succ {cfg : MCfg} (m t' : MMetaSlab (MTree r d)) (top : Bool) {k : MKey} {v : Elem} {c c' : Ctx}
@@ -330,13 +336,15 @@ theorem mset_acct_succ {cfg : MCfg} (m t' : MMetaSlab (MTree r d)) (top : Bool) 
       (∀ id ∈ AList.keys (MTree.slabs d child), Old cfg.addr c.ctr id) →
       MTree.set cfg d child k v c = .ok (ks, old, child', c1) →
       (MTree.hdr d child').id = (MTree.hdr d child).id ∧ ∃ E C, MLog cfg.addr c c1 E C ∧
-        MAcct cfg.addr c.ctr c1.ctr (MTree.slabs d child) (MTree.slabs d child') E (C.map (·.1)))
+        MAcct cfg.addr c.ctr c1.ctr (MTree.slabs d child) (MTree.slabs d child') E (C.map (·.1)) ∧
+        lastAction E (MTree.hdr d child).id = some true)
     (h : MTree.set cfg (d + 1) m k v c = .ok (ks, old, t', c')) :
     (MTree.hdr (d + 1) t').id = (MTree.hdr (d + 1) m).id ∧ ∃ E C, MLog cfg.addr c c' E C ∧
-      MAcct cfg.addr c.ctr c'.ctr (MTree.slabs (d + 1) m) (MTree.slabs (d + 1) t') E (C.map (·.1)) := by
+      MAcct cfg.addr c.ctr c'.ctr (MTree.slabs (d + 1) m) (MTree.slabs (d + 1) t') E (C.map (·.1)) ∧
+      lastAction E (MTree.hdr (d + 1) m).id = some true := by
   obtain ⟨i, child, child', c1, hchild, hs, ha⟩ := mset_succ_inv m h
   obtain ⟨hci, hcinl, hcaddr, hcnd, hcold⟩ := child_facts hinv haddr hnd hold hchild
-  obtain ⟨hid, E1, C1, hlog1, hacct1⟩ := ih child child' c1 hci hcinl hcaddr hcnd hcold hs
+  obtain ⟨hid, E1, C1, hlog1, hacct1, _⟩ := ih child child' c1 hci hcinl hcaddr hcnd hcold hs
   exact ⟨afterChild_hdr_id ha, mnode_acct hchild hcaddr hid hnd hold hlog1 hacct1 ha⟩
 
 theorem mset_acct {cfg : MCfg} {k : MKey} {v : Elem} {ks : MKey} {old : Option Elem} {c : Ctx} :
@@ -345,7 +353,8 @@ theorem mset_acct {cfg : MCfg} {k : MKey} {v : Elem} {ks : MKey} {old : Option E
     (AList.keys (MTree.slabs d t)).Nodup → (∀ id ∈ AList.keys (MTree.slabs d t), Old cfg.addr c.ctr id) →
     MTree.set cfg d t k v c = .ok (ks, old, t', c') →
     (MTree.hdr d t').id = (MTree.hdr d t).id ∧ ∃ E C, MLog cfg.addr c c' E C ∧
-      MAcct cfg.addr c.ctr c'.ctr (MTree.slabs d t) (MTree.slabs d t') E (C.map (·.1))
+      MAcct cfg.addr c.ctr c'.ctr (MTree.slabs d t) (MTree.slabs d t') E (C.map (·.1)) ∧
+      lastAction E (MTree.hdr d t).id = some true
   | 0, s, t', top, _, hinv, hinl, _, hnd, hold, h => mset_acct_zero s t' top hinv hinl hnd hold h
   | d + 1, m, t', top, _, hinv, _, haddr, hnd, hold, h =>
     mset_acct_succ m t' top hinv haddr hnd hold
@@ -357,7 +366,8 @@ theorem mremove_acct_zero {cfg : MCfg} (s t' : MDataSlab r) (top : Bool) {k : MK
     (hold : ∀ id ∈ AList.keys (MTree.slabs 0 s), Old cfg.addr c.ctr id)
     (h : MTree.remove cfg 0 s k c = .ok (rk, rv, t', c')) :
     (MTree.hdr 0 t').id = (MTree.hdr 0 s).id ∧ ∃ E C, MLog cfg.addr c c' E C ∧
-      MAcct cfg.addr c.ctr c'.ctr (MTree.slabs 0 s) (MTree.slabs 0 t') E (C.map (·.1)) :=
+      MAcct cfg.addr c.ctr c'.ctr (MTree.slabs 0 s) (MTree.slabs 0 t') E (C.map (·.1)) ∧
+      lastAction E (MTree.hdr 0 s).id = some true :=
   mdata_remove_acct s t' hinl (firstOk_of_inv ((mtreeInv_zero_iff T D top s).mp hinv).elems_inv) hnd hold h
 
 theorem mremove_acct_succ {cfg : MCfg} (m t' : MMetaSlab (MTree r d)) (top : Bool) {k : MKey} {c c' : Ctx}
@@ -369,13 +379,15 @@ theorem mremove_acct_succ {cfg : MCfg} (m t' : MMetaSlab (MTree r d)) (top : Boo
       (∀ id ∈ AList.keys (MTree.slabs d child), Old cfg.addr c.ctr id) →
       MTree.remove cfg d child k c = .ok (rk, rv, child', c1) →
       (MTree.hdr d child').id = (MTree.hdr d child).id ∧ ∃ E C, MLog cfg.addr c c1 E C ∧
-        MAcct cfg.addr c.ctr c1.ctr (MTree.slabs d child) (MTree.slabs d child') E (C.map (·.1)))
+        MAcct cfg.addr c.ctr c1.ctr (MTree.slabs d child) (MTree.slabs d child') E (C.map (·.1)) ∧
+        lastAction E (MTree.hdr d child).id = some true)
     (h : MTree.remove cfg (d + 1) m k c = .ok (rk, rv, t', c')) :
     (MTree.hdr (d + 1) t').id = (MTree.hdr (d + 1) m).id ∧ ∃ E C, MLog cfg.addr c c' E C ∧
-      MAcct cfg.addr c.ctr c'.ctr (MTree.slabs (d + 1) m) (MTree.slabs (d + 1) t') E (C.map (·.1)) := by
+      MAcct cfg.addr c.ctr c'.ctr (MTree.slabs (d + 1) m) (MTree.slabs (d + 1) t') E (C.map (·.1)) ∧
+      lastAction E (MTree.hdr (d + 1) m).id = some true := by
   obtain ⟨i, child, child', c1, hchild, hs, ha⟩ := mremove_succ_inv m h
   obtain ⟨hci, hcinl, hcaddr, hcnd, hcold⟩ := child_facts hinv haddr hnd hold hchild
-  obtain ⟨hid, E1, C1, hlog1, hacct1⟩ := ih child child' c1 hci hcinl hcaddr hcnd hcold hs
+  obtain ⟨hid, E1, C1, hlog1, hacct1, _⟩ := ih child child' c1 hci hcinl hcaddr hcnd hcold hs
   exact ⟨afterChild_hdr_id ha, mnode_acct hchild hcaddr hid hnd hold hlog1 hacct1 ha⟩
 
 theorem mremove_acct {cfg : MCfg} {k : MKey} {rk : MKey} {rv : Elem} {c : Ctx} :
@@ -384,7 +396,8 @@ theorem mremove_acct {cfg : MCfg} {k : MKey} {rk : MKey} {rv : Elem} {c : Ctx} :
     (AList.keys (MTree.slabs d t)).Nodup → (∀ id ∈ AList.keys (MTree.slabs d t), Old cfg.addr c.ctr id) →
     MTree.remove cfg d t k c = .ok (rk, rv, t', c') →
     (MTree.hdr d t').id = (MTree.hdr d t).id ∧ ∃ E C, MLog cfg.addr c c' E C ∧
-      MAcct cfg.addr c.ctr c'.ctr (MTree.slabs d t) (MTree.slabs d t') E (C.map (·.1))
+      MAcct cfg.addr c.ctr c'.ctr (MTree.slabs d t) (MTree.slabs d t') E (C.map (·.1)) ∧
+      lastAction E (MTree.hdr d t).id = some true
   | 0, s, t', top, _, hinv, hinl, _, hnd, hold, h => mremove_acct_zero s t' top hinv hinl hnd hold h
   | d + 1, m, t', top, _, hinv, _, haddr, hnd, hold, h =>
     mremove_acct_succ m t' top hinv haddr hnd hold
